@@ -1,5 +1,5 @@
 (* C14 — inline, flatten and `as` change presentation, never meaning.  Statements only. *)
-From TsRs Require Import Base.Str Base.Outcome Gen.Tables Model.Case Model.TsAst Model.Rust Model.Docs Model.Gen Spec.TsFree Spec.TsSem Proofs.Gen_subst_proofs Proofs.Gen_decl_proofs Proofs.Sem_flatten_proofs.
+From TsRs Require Import Base.Str Base.Outcome Gen.Tables Model.Case Model.TsAst Model.Rust Model.Docs Model.Gen Spec.TsFree Spec.TsSem Proofs.Gen_subst_proofs Proofs.Gen_decl_proofs Proofs.Sem_flatten_proofs Proofs.Merge_text_proofs.
 From Coq Require Import List.
 Import ListNotations.
 
@@ -46,6 +46,23 @@ Theorem C14_decl_concrete :
       Ok (lit "type " ++ ts_ident d ++ lit " = " ++ print (fst r) ++ lit ";").
 Proof. intros ? ? ? R fuel d args r H. unfold decl_concrete_text. rewrite H. reflexivity. Qed.
 
+(* the text named.rs builds for `{ own fields } & flattened & ..` is the text of the structural merge: object
+   literals that meet are concatenated, everything else is joined with ` & ` — for every list of operands that are
+   non-empty struct objects or whose text neither begins with `{ ` nor ends with ` }` (parenthesised unions,
+   references, type parameters) *)
+Theorem C14_merged_text_is_structural_merge :
+  forall l, l <> [] -> Forall okop l -> print (TMerged (TInter l)) = print (inter_of (merge_adjacent l)).
+Proof. exact glue_is_structural_merge. Qed.
+
+Example C14_merged_text_nonvacuous :
+  let h := fun k : String.string => {| p_docs := []; p_key := lit k; p_text := lit k; p_optional := false |} in
+  let l := [TObj OStruct [(h "a", TPrim (lit "number"))]; TObj OStruct [(h "b", TObj OVariant [(h "k", TLit (lit "A"))])];
+            TParen (TUnion [TObj OStruct [(h "x", TPrim (lit "null"))]; TPrim (lit "null")]); TObj OStruct [(h "c", TRef (lit "T") [])]]%string in
+  Forall okop l /\
+  print (TMerged (TInter l)) = lit "{ a: number, b: { k: ""A"" }, } & ({ x: null, } | null) & { c: T, }"%string.
+Proof. split; [repeat constructor; cbn; try discriminate; try (repeat split; [reflexivity | reflexivity | cbn; repeat constructor]) | vm_compute; reflexivity]. Qed.
+
+Print Assumptions C14_merged_text_is_structural_merge.
 Print Assumptions C14_inline_is_instantiated_body.
 Print Assumptions C14_reference_denotes_body.
 Print Assumptions C14_flatten_merges.
